@@ -513,7 +513,8 @@ def run_case(ctx, case):
                 # a stream: bad* good
                 frames = []
                 kinds = []
-                nbad = rng.choice((0, 1, 1, 2, 3, 5))
+                # (now and then a long stream: a peer that keeps sending frames the server cannot decode is still owed one answer per frame)
+                nbad = rng.choice((0, 1, 1, 2, 3, 5, 14, 28))
                 version = rng.choice(rig.VERSIONS)
                 for _ in range(nbad):
                     opname, op = G.random_op(rng, version, objs)
